@@ -266,7 +266,9 @@ func (p *Posix) doesBucketAndObjectExist(bucket, object string) error {
 	}
 	// a key ending in "/" names a directory object, any other key a file
 	// object: the file system resolves both spellings to the same path
-	if strings.HasSuffix(object, "/") != fi.IsDir() {
+	// (a name in the temp directory: the directory in which a multipart
+	// upload keeps its retention and legal hold)
+	if !strings.HasPrefix(object, metaTmpDir+"/") && strings.HasSuffix(object, "/") != fi.IsDir() {
 		return s3err.GetAPIError(s3err.ErrNoSuchKey)
 	}
 
